@@ -362,6 +362,15 @@ func (s *Service) unblindProposal(ctx context.Context,
 	// semaphore to track if a signed block has been returned by any provider.
 	sem := semaphore.NewWeighted(1)
 
+	// The blinded proposal sent to the relays is put together once, up front: the proposal itself is
+	// altered below as soon as one relay has responded, whilst slower relays can still be (re)trying.
+	blindedProposal := &api.VersionedSignedBlindedProposal{
+		Version:   proposal.Version,
+		Bellatrix: proposal.BellatrixBlinded,
+		Capella:   proposal.CapellaBlinded,
+		Deneb:     proposal.DenebBlinded,
+	}
+
 	respCh := make(chan *api.VersionedSignedProposal, len(providers))
 	for _, provider := range providers {
 		go func(ctx context.Context, provider builderclient.UnblindedProposalProvider, ch chan *api.VersionedSignedProposal) {
@@ -376,12 +385,7 @@ func (s *Service) unblindProposal(ctx context.Context,
 			for retries := 3; retries > 0; retries-- {
 				// Unblind the blinded block.
 				signedProposalResponse, err = provider.UnblindProposal(ctx, &builderapi.UnblindProposalOpts{
-					Proposal: &api.VersionedSignedBlindedProposal{
-						Version:   proposal.Version,
-						Bellatrix: proposal.BellatrixBlinded,
-						Capella:   proposal.CapellaBlinded,
-						Deneb:     proposal.DenebBlinded,
-					},
+					Proposal: blindedProposal,
 				})
 
 				if !sem.TryAcquire(1) {
